@@ -181,7 +181,10 @@ func HelperMain() {
 				signal.Notify(ch, os.Interrupt)
 			}
 			if ready != "" {
-				os.WriteFile(ready, []byte("ready\n"), 0o666)
+				// atomically: a script may copy the file as soon as waitfile sees it
+				tmp := ready + ".tmp-" + strconv.Itoa(os.Getpid())
+				os.WriteFile(tmp, []byte("ready\n"), 0o666)
+				os.Rename(tmp, ready)
 			}
 			if exitOnInt {
 				<-ch
